@@ -30,6 +30,9 @@ pub struct Obs {
     pub anomalies: Vec<String>,
     /// live tasks in the root command, where the host can see it
     pub live_tasks: Option<usize>,
+    /// the host stopped consuming outputs early (a lagging consumer): more of this step's
+    /// outputs will be reported by a later step; compare cumulatively
+    pub partial: bool,
 }
 
 #[derive(Clone, Copy, Debug)]
@@ -61,6 +64,10 @@ pub trait Host {
     /// drop everything the host still holds; returns anomalies seen while doing so
     fn finish(&mut self) -> Vec<String> {
         vec![]
+    }
+    /// lagging hosts: consume everything that is still queued (called before the end)
+    fn flush(&mut self) -> Obs {
+        Obs::default()
     }
 }
 
@@ -268,6 +275,11 @@ pub struct StreamHost<Ef: LabEffect> {
     table: HashMap<Key, ReqObj>,
     flag: Arc<FlagWaker>,
     ended: bool,
+    /// lagging consumer: after an action take only a few of the outputs that are ready and
+    /// leave the rest queued inside the command while the next action happens (what a second
+    /// thread, or a consumer doing other work between items, does)
+    lag: Option<vcommon::Rng>,
+    behind: bool,
 }
 
 impl<Ef: LabEffect> StreamHost<Ef> {
@@ -277,12 +289,40 @@ impl<Ef: LabEffect> StreamHost<Ef> {
             table: HashMap::new(),
             flag: Arc::new(FlagWaker(AtomicBool::new(false))),
             ended: false,
+            lag: None,
+            behind: false,
+        }
+    }
+
+    pub fn lagging() -> Self {
+        StreamHost {
+            lag: Some(vcommon::Rng::new(0)),
+            ..Self::new()
+        }
+    }
+
+    fn limit(&mut self) -> Option<usize> {
+        let r = self.lag.as_mut()?;
+        if r.chance(1, 3) {
+            None
+        } else {
+            Some(r.range(1, 3) as usize)
+        }
+    }
+
+    fn needs(&self, action: &Action) -> bool {
+        match action {
+            Action::Resolve { site, arg, .. } | Action::DropReq { site, arg } => !self.table.contains_key(&(*site, *arg)),
+            Action::Batch(subs) => subs.iter().any(|a| self.needs(a)),
+            Action::Extend(_) => true,
+            _ => false,
         }
     }
 
     /// Poll until Pending / end. `woken`: whether our waker had been woken since the last
     /// poll; an output that shows up on a poll we were not woken for is a lost wake-up.
-    fn drain(&mut self, woken: bool, first: bool, out: &mut Obs) {
+    fn drain(&mut self, woken: bool, first: bool, limit: Option<usize>, out: &mut Obs) {
+        self.behind = false;
         if self.ended {
             out.done = Some(true);
             return;
@@ -314,8 +354,15 @@ impl<Ef: LabEffect> StreamHost<Ef> {
                     break;
                 }
             }
+            if limit.is_some_and(|k| produced >= k) {
+                // the command has settled (every poll runs it until it settles), the rest of
+                // its outputs stay queued inside it
+                self.behind = true;
+                out.partial = true;
+                return;
+            }
         }
-        if produced > 0 && !woken && !first {
+        if produced > 0 && !woken && !first && self.lag.is_none() {
             out.anomalies.push(format!(
                 "lost wake-up: {produced} output(s) were ready but the host's waker was never woken"
             ));
@@ -329,7 +376,11 @@ impl<Ef: LabEffect> StreamHost<Ef> {
 
 impl<Ef: LabEffect> Host for StreamHost<Ef> {
     fn name(&self) -> &'static str {
-        "StreamHost"
+        if self.lag.is_some() {
+            "StreamLagHost"
+        } else {
+            "StreamHost"
+        }
     }
     fn caps(&self) -> Caps {
         Caps {
@@ -345,10 +396,19 @@ impl<Ef: LabEffect> Host for StreamHost<Ef> {
     }
     fn prepare(&mut self, program: &Cmd) {
         self.cmd = Some(Box::pin(build::<Ef>(program)));
+        if self.lag.is_some() {
+            self.lag = Some(vcommon::Rng::derive(vcommon::hash_json(program), 0, 77));
+        }
     }
     fn first_poll(&mut self) -> Obs {
         let mut out = Obs::default();
-        self.drain(true, true, &mut out);
+        let limit = self.limit();
+        self.drain(true, true, limit, &mut out);
+        out
+    }
+    fn flush(&mut self) -> Obs {
+        let mut out = Obs::default();
+        self.drain(true, true, None, &mut out);
         out
     }
     fn start(&mut self, program: &Cmd) -> Obs {
@@ -357,6 +417,10 @@ impl<Ef: LabEffect> Host for StreamHost<Ef> {
     }
     fn act(&mut self, action: &Action) -> Obs {
         let mut out = Obs::default();
+        if self.behind && self.needs(action) {
+            // the action is about a request this consumer has not taken yet: catch up first
+            self.drain(true, true, None, &mut out);
+        }
         self.flag.0.store(false, Ordering::SeqCst);
         match action {
             Action::Resolve { site, arg, val } => {
@@ -384,7 +448,8 @@ impl<Ef: LabEffect> Host for StreamHost<Ef> {
             Action::Batch(subs) => apply_batch_quietly(&mut self.table, subs, &mut out),
         }
         let woken = self.flag.0.load(Ordering::SeqCst);
-        self.drain(woken, false, &mut out);
+        let limit = self.limit();
+        self.drain(woken, false, limit, &mut out);
         out
     }
     fn finish(&mut self) -> Vec<String> {
@@ -612,6 +677,8 @@ where
     pub table: HashMap<Key, ReqObj>,
     pub seen_log: usize,
     pub legacy: bool,
+    /// scripts use capability futures inside Command tasks (`Event::StartMixed`)
+    pub mixed: bool,
 }
 
 impl<A: LabApp> CoreHost<A>
@@ -624,6 +691,14 @@ where
             table: HashMap::new(),
             seen_log: 0,
             legacy,
+            mixed: false,
+        }
+    }
+
+    pub fn mixed() -> Self {
+        CoreHost {
+            mixed: true,
+            ..Self::new(false)
         }
     }
 
@@ -661,13 +736,17 @@ where
     fn name(&self) -> &'static str {
         if self.legacy {
             "CoreLegacy"
+        } else if self.mixed {
+            "CoreMixed"
         } else {
             A::NAME
         }
     }
     fn caps(&self) -> Caps {
         Caps {
-            drop: !self.legacy,
+            // a capability future keeps its task's waker alive by itself: dropping the request
+            // leaves the task waiting for ever instead of cancelling it (legacy behaviour)
+            drop: !self.legacy && !self.mixed,
             reresolve: true,
             resolve_never_twice: true,
             abort_before_start: false,
@@ -681,6 +760,8 @@ where
         let mut out = Obs::default();
         let ev = if self.legacy {
             Event::StartLegacy(Box::new(program.clone()))
+        } else if self.mixed {
+            Event::StartMixed(Box::new(program.clone()))
         } else {
             Event::Start(Box::new(program.clone()))
         };
